@@ -58,6 +58,11 @@ charset_name comment_count replace_flag exists_flag if_null not_null_flag nullab
 delete_flag deleted drop_date dropped add_date added alter_ts altered rename_to renamed modify_ts modified column_no columns_total
 foreign_id foreigner visible_flag invisible_flag go_live use_count used insert_ts inserted grant_id granted setting set_id settled
 """.split()
+# words of statements the parser does not support (CREATE VIEW / FUNCTION / ROLE ..., SELECT, MERGE, COMMIT ...): not grammar
+# keywords, hence ordinary identifiers wherever a name is expected
+REALISTIC_NAMES += """role view function procedure trigger extension user group owner policy rule language revoke select merge call
+explain vacuum analyze truncate begin commit rollback session transaction package synonym event server publication operator
+aggregate""".split()
 
 
 @st.composite
